@@ -33,6 +33,16 @@ def demo_target(seed, wt):
 
 
 def run_demo(seed, wt):
+    if os.path.exists(os.path.join(seed, 'run_demo.sh')):
+        # the seed ships its own runner (expects to live in <worktree>/SEED/<variant>/)
+        var = os.path.basename(seed).split('-')[-1]
+        d = os.path.join(wt, 'SEED', var)
+        shutil.copytree(seed, d, dirs_exist_ok=True)
+        try:
+            rc, out = sh(['sh', os.path.join(d, 'run_demo.sh')], cwd=wt)
+        finally:
+            shutil.rmtree(os.path.join(wt, 'SEED'), ignore_errors=True)
+        return rc == 0, out[-1500:]
     f, pkgdir = demo_target(seed, wt)
     if not f:
         return None, 'no demo with a package comment found'
